@@ -23,6 +23,7 @@ var checks = map[string]struct {
 	"C27": {"exploration", c27},
 	"C28": {"exploration", c28},
 	"C47": {"exploration", c47},
+	"C54": {"exploration", c54},
 }
 
 func main() {
